@@ -313,6 +313,10 @@ func bigLattice(work *choice.Source, shape *simsolid.Shape, v *variant, lo, hi i
 
 // ---------------------------------------------------------------- algorithms
 
+// forceC2F (package variable set by the "mcc2f" algo for the duration of one case):
+// big lattice, coarse-to-fine with a ratio of 8..24 and thin plates between the scales.
+var forceC2F bool
+
 func runMC(r *runner, work *choice.Source, search, forceFlat bool) (fs []Finding) {
 	forceTall := false
 	if forceFlat && work.Chance(1, 2) {
@@ -328,7 +332,10 @@ func runMC(r *runner, work *choice.Source, search, forceFlat bool) (fs []Finding
 	extra := uint64(pick(work, 0, 2, 5))
 	bigK := 2 + work.Intn(5)
 	salt := work.U64()
-	big := bigLattice(work, shape, &v, 64, 112, forceFlat || forceTall)
+	big := bigLattice(work, shape, &v, 64, 112, forceFlat || forceTall || forceC2F)
+	if forceC2F {
+		kind = 4
+	}
 	if forceTall {
 		// the other extreme: at least 66 lattice layers in z and at least as many
 		// workers (GOMAXPROCS beyond 64), plain pipelined path
@@ -361,7 +368,7 @@ func runMC(r *runner, work *choice.Source, search, forceFlat bool) (fs []Finding
 	if big {
 		r.refKnobs = map[string]int{"cm.itemStride": 257, "auto.stride": 257}
 		r.st.probe("mc.big_lattice")
-		if kind == 4 && work.Chance(2, 3) {
+		if kind == 4 && (forceC2F || work.Chance(2, 3)) {
 			// a fine lattice leaves room for large coarse-to-fine ratios, with a thin
 			// positive plate or two added so that there are features between the scales
 			bigK = 8 + work.Intn(17)
@@ -373,6 +380,15 @@ func runMC(r *runner, work *choice.Source, search, forceFlat bool) (fs []Finding
 					p.Min[a], p.Max[a] = lo[a]+0.05*(hi[a]-lo[a]), hi[a]-0.05*(hi[a]-lo[a])
 				}
 				c := lo[axis] + (0.2+0.6*work.Float())*(hi[axis]-lo[axis])
+				if forceC2F {
+					// on a plane of the coarse lattice (origin: lower bound minus one coarse
+					// step), so that the coarse pass does see the plate however thin it is
+					// and the case stays inside "all coarse spacings that still see every
+					// feature"; whatever lies between the scales may not lose it again
+					bigD := shape.Delta * float64(bigK)
+					k := math.Round((c - (lo[axis] - bigD)) / bigD)
+					c = lo[axis] - bigD + k*bigD
+				}
 				th := shape.Delta * (1.2 + 4*work.Float())
 				p.Min[axis], p.Max[axis] = c-th/2, c+th/2
 				// the plate sticks out of the main body on one side
@@ -949,7 +965,7 @@ func (n nudged) Contains(c model2d.Coord) bool {
 
 var Algos = []string{"mc", "mcsearch", "dc", "ms", "raster", "mc", "dc", "dcrepair",
 	"mc", "mcsearch", "dc", "ms", "raster", "mc", "dc", "dcrepair",
-	"mc", "mcsearch", "dc", "ms", "raster", "mcflat", "dc", "dcbig"}
+	"mc", "mcsearch", "dc", "ms", "mcc2f", "mcflat", "dc", "dcbig"}
 
 func RunCase(t *testing.T, c *Case, work, sched *choice.Source, st *Stats) (fs []Finding) {
 	// the global random source is part of the simulation (random-search normals draw
@@ -966,6 +982,10 @@ func RunCase(t *testing.T, c *Case, work, sched *choice.Source, st *Stats) (fs [
 		}
 	}()
 	switch c.Algo {
+	case "mcc2f":
+		forceC2F = true
+		defer func() { forceC2F = false }()
+		return runMC(r, work, true, false)
 	case "mc":
 		return runMC(r, work, false, false)
 	case "mcflat":
